@@ -6,15 +6,29 @@ set -u
 cd "$(dirname "$0")" || exit 2
 V=$(pwd)
 export GOFLAGS=-mod=mod GOPROXY=off GOSUMDB=off GOTOOLCHAIN=local
-export GOCACHE="$V/.gocache" VERIF_DIR="$V"
+export GOCACHE="$V/.gocache" VERIF_DIR="${VERIF_DIR_OVERRIDE:-$V}"
 ID=${1:?property id}
 TIER=${2:-${VERIF_TIER:-quick}}
 mkdir -p "$V/.build" "$V/evidence"
 LOCK="$V/.build/build.lock"
+# The checks always build against /repo. VERIF_REPO=<dir> (used only by
+# tools/seed_matrix.sh to try seeded changes in scratch worktrees without
+# touching /repo) builds against another tree through an alternate go.mod.
+REPO=${VERIF_REPO:-/repo}
+MODFLAG=""
+if [ "$REPO" != "/repo" ]; then
+  ALT="$V/.build/alt.$$.mod"
+  sed "s#=> /repo#=> $REPO#" "$V/mc/go.mod" > "$ALT"
+  cp "$V/mc/go.sum" "$V/.build/alt.$$.sum" 2>/dev/null
+  MODFLAG="-modfile=$ALT"
+  OUTBIN="$V/.build/kvqlmc.alt.$$"
+else
+  OUTBIN="$V/.build/kvqlmc"
+fi
 (
   flock 9
-  cp /repo/go.sum "$V/mc/go.sum" 2>/dev/null
-  cd "$V/mc" && go build -o "$V/.build/kvqlmc" ./cmd/kvqlmc
+  [ "$REPO" = "/repo" ] && cp /repo/go.sum "$V/mc/go.sum" 2>/dev/null
+  cd "$V/mc" && go build $MODFLAG -o "$OUTBIN" ./cmd/kvqlmc
 ) 9>"$LOCK"
 rc=$?
 if [ $rc -ne 0 ]; then
@@ -23,7 +37,8 @@ if [ $rc -ne 0 ]; then
 fi
 # each run uses a private copy of the binary so that concurrent rebuilds do not disturb it
 BIN="$V/.build/kvqlmc.$$"
-cp "$V/.build/kvqlmc" "$BIN" || exit 2
+cp "$OUTBIN" "$BIN" || exit 2
+[ "$REPO" = "/repo" ] || rm -f "$OUTBIN"
 RACEBIN=""
 if [ "$ID" = "C19" ]; then
   # C19: instrument the current /repo sources into a build overlay (package-level
@@ -31,8 +46,8 @@ if [ "$ID" = "C19" ]; then
   # build the race-detector binary of the supporting free-running pass.
   IDIR="$V/.build/instr.$$"
   rm -rf "$IDIR"
-  if "$BIN" instr /repo "$IDIR" > "$IDIR.log" 2>&1 && \
-     (cd "$V/mc" && go build -tags verifinstr -overlay "$IDIR/overlay.json" -o "$BIN.instr" ./cmd/kvqlmc) >> "$IDIR.log" 2>&1; then
+  if "$BIN" instr "$REPO" "$IDIR" > "$IDIR.log" 2>&1 && \
+     (cd "$V/mc" && go build $MODFLAG -tags verifinstr -overlay "$IDIR/overlay.json" -o "$BIN.instr" ./cmd/kvqlmc) >> "$IDIR.log" 2>&1; then
     cat "$IDIR.log"
     mv "$BIN.instr" "$BIN"
   else
@@ -40,7 +55,7 @@ if [ "$ID" = "C19" ]; then
     tail -5 "$IDIR.log"
   fi
   RACEBIN="$V/.build/racepass.$$"
-  if ! (cd "$V/mc" && go build -race -o "$RACEBIN" ./cmd/racepass) > "$IDIR.race.log" 2>&1; then
+  if ! (cd "$V/mc" && go build $MODFLAG -race -o "$RACEBIN" ./cmd/racepass) > "$IDIR.race.log" 2>&1; then
     echo "NOTE: race-detector build failed; supporting pass skipped"
     tail -3 "$IDIR.race.log"
     RACEBIN=""
@@ -49,5 +64,5 @@ if [ "$ID" = "C19" ]; then
 fi
 VERIF_RACE_BIN="$RACEBIN" "$BIN" check "$ID" --tier "$TIER"
 rc=$?
-rm -f "$BIN" "$RACEBIN"
+rm -f "$BIN" "$RACEBIN" "$V/.build/alt.$$.mod" "$V/.build/alt.$$.sum"
 exit $rc
